@@ -28,7 +28,8 @@ func stagesFor(role string) []string {
 		return []string{"new", "negotiating", "authenticating", "in-authenticate-callback", "in-register-callback", "established", "finished", "failed-handshake", "failed-after-established", "peer-closed",
 			"finish-in-progress", "fail-in-progress"}
 	}
-	return []string{"new-before", "new-sent", "negotiating", "in-selector-callback", "authenticating", "in-authenticator-callback", "established", "finished", "failed-handshake", "failed-after-established", "peer-closed"}
+	return []string{"new-before", "new-sent", "negotiating", "in-selector-callback", "authenticating", "in-authenticator-callback", "established", "finished", "failed-handshake", "failed-after-established", "peer-closed",
+		"finishing-said-at-new", "finishing-said-at-auth"}
 }
 
 type c06Obs struct {
@@ -328,15 +329,28 @@ func runC06Client(c *c06Case) *c06Obs {
 	case "failed-after-established":
 		establish()
 		step(M{"id": "A", "from": from, "state": "failed", "reason": M{"code": 1, "description": "no"}})
+	case "finishing-said-at-new":
+		// a server that answers the handshake with a session in state finishing: never established, whatever the channel makes of it
+		start()
+		step(M{"id": "A", "from": from, "state": "finishing"})
+	case "finishing-said-at-auth":
+		start()
+		step(authReq)
+		step(M{"id": "A", "from": from, "state": "finishing"})
 	case "peer-closed":
 		establish()
 		_ = sv.Close()
 		synctest.Wait()
 	}
 	obs.StateAt = string(cc.State())
+	if strings.HasPrefix(c.Stage, "finishing-said") {
+		obs.Reached = obs.StateAt != "established" // whatever state the channel chose, the session was never established
+	}
 	want := map[string]string{"new-before": "new", "new-sent": "new", "negotiating": "negotiating", "in-selector-callback": "negotiating", "authenticating": "authenticating",
 		"in-authenticator-callback": "authenticating", "established": "established", "finished": "finished", "failed-handshake": "failed", "failed-after-established": "failed", "peer-closed": "established"}
-	obs.Reached = obs.StateAt == want[c.Stage]
+	if !strings.HasPrefix(c.Stage, "finishing-said") {
+		obs.Reached = obs.StateAt == want[c.Stage]
+	}
 	doSends(cc, c.Ops, obs)
 	synctest.Wait()
 	peer.Drain()
